@@ -266,6 +266,12 @@ func runExpect(repo, verif string) int {
 			exp[p] = names
 		}
 	}
+	if nl, err := w.writeLocals(verif); err != nil {
+		fmt.Fprintln(os.Stderr, err)
+		return 3
+	} else {
+		fmt.Printf("locals.json: %d functions\n", nl)
+	}
 	b, _ := json.MarshalIndent(exp, "", " ")
 	if err := os.WriteFile(filepath.Join(verif, "contracts", "expected_obligations.json"), append(b, '\n'), 0o644); err != nil {
 		fmt.Fprintln(os.Stderr, err)
@@ -497,6 +503,7 @@ func runCheck(repo, verif, prop, tier string) int {
 		"assumed_contract_audit": auditEv,
 		"interface_refinement": map[string]any{"pairs": res.refinements, "clauses_not_comparable": res.refSkipped,
 			"note": "postconditions of interface-method contracts that do not speak about observation ghosts are checked against the contract of each implementing method; the others, and all frames, stay trusted"},
+		"renamed_locals":             w.renamedLocals,
 		"obligations":                nObl,
 		"discharged":                 nDis,
 		"checker_cmd":                fmt.Sprintf("/verif/bin/check %s %s  (govc: go/ssa of /repo -> SMT-LIB; z3-new 5.1.0, cvc5 1.0.3, z3 4.8.12)", prop, tier),
